@@ -8,6 +8,26 @@ use super::*;
 use crate::rules::path_value::{Location, MapValue, Path};
 use std::mem::forget;
 
+// not on the unary path: cut from the goto-program to keep it small (they return an error if ever called,
+// which would make every unary assertion fail => never a silent pass)
+fn binary_operation_cut<'value, 'loc: 'value>(
+    _lhs_query: &'value [QueryPart<'loc>],
+    _rhs: &[QueryResult],
+    _cmp: (CmpOperator, bool),
+    _context: String,
+    _custom_message: Option<String>,
+    _eval_context: &mut dyn EvalContext<'value, 'loc>,
+) -> Result<EvaluationResult> {
+    Err(Error::IncompatibleError(String::new()))
+}
+fn resolve_function_cut<'value, 'eval, 'loc: 'value>(
+    _name: &crate::rules::eval_context::FunctionName,
+    _parameters: &'value [LetValue<'loc>],
+    _resolver: &'eval mut dyn EvalContext<'value, 'loc>,
+) -> Result<Vec<QueryResult>> {
+    Err(Error::IncompatibleError(String::new()))
+}
+
 macro_rules! proof {
     ($name:ident, $unwind:literal, $body:block) => {
         #[kani::proof]
@@ -18,6 +38,8 @@ macro_rules! proof {
         #[kani::stub(fancy_regex::Regex::is_match, crate::verif_stubs::regex_is_match_stub)]
         #[kani::stub(core::ptr::drop_in_place, crate::verif_stubs::drop_in_place_stub)]
         #[kani::stub(std::hash::RandomState::new, crate::verif_stubs::random_state_stub)]
+        #[kani::stub(crate::rules::eval::binary_operation, binary_operation_cut)]
+        #[kani::stub(crate::rules::eval_context::resolve_function, resolve_function_cut)]
         fn $name() $body
     };
 }
@@ -144,19 +166,19 @@ macro_rules! k8u {
     };
 }
 
-//@ k8u_exists_1 props=C01:t,C03,C02,C08:t tier=quick expect=pass fns=eval_guard_access_clause,unary_operation,record_unary_clause,exists_operation,not_operation,inverse_operation :: clause level, `[not] a [!]exists` on 1 query result (resolved Int | unresolved: two instances in one harness via symbolic pick is not possible -> resolved Int): status = truth xor !op xor prefix-not; one GuardClauseBlockCheck with that status; value records match; balanced
+//@ k8u_exists_1 props=C01,C03,C02,C08:t tier=quick expect=pass fns=eval_guard_access_clause,unary_operation,record_unary_clause,exists_operation,not_operation,inverse_operation :: clause level, `[not] a [!]exists` on 1 query result (resolved Int | unresolved: two instances in one harness via symbolic pick is not possible -> resolved Int): status = truth xor !op xor prefix-not; one GuardClauseBlockCheck with that status; value records match; balanced
 k8u!(k8u_exists_1, CmpOperator::Exists, [V_INT], 6);
-//@ k8u_exists_unres props=C01:t,C03,C02 tier=quick expect=pass fns=eval_guard_access_clause,unary_operation,record_unary_clause,exists_operation :: clause level, exists on 1 unresolved result: `a exists` FAIL, `a !exists` PASS, `not a exists` PASS, `not a !exists` FAIL
+//@ k8u_exists_unres props=C01,C03,C02 tier=quick expect=pass fns=eval_guard_access_clause,unary_operation,record_unary_clause,exists_operation :: clause level, exists on 1 unresolved result: `a exists` FAIL, `a !exists` PASS, `not a exists` PASS, `not a !exists` FAIL
 k8u!(k8u_exists_unres, CmpOperator::Exists, [V_UNRESOLVED], 6);
-//@ k8u_exists_2 props=C01,C03,C02 tier=quick expect=pass fns=eval_guard_access_clause,unary_operation,record_unary_clause,exists_operation :: clause level, exists on 2 results (resolved, unresolved): all => FAIL unless negated..., some => PASS; all/some fold over per-value outcomes
+//@ k8u_exists_2 props=C01,C03,C02 tier=thorough expect=pass fns=eval_guard_access_clause,unary_operation,record_unary_clause,exists_operation :: clause level, exists on 2 results (resolved, unresolved): all => FAIL unless negated..., some => PASS; all/some fold over per-value outcomes
 k8u!(k8u_exists_2, CmpOperator::Exists, [V_INT, V_UNRESOLVED], 7);
 //@ k8u_empty_skip props=C01,C02 tier=quick expect=pass fns=eval_guard_access_clause,unary_operation :: clause level, unary operator on an empty selection: SKIP regardless of polarity/negation/some
 k8u!(k8u_empty_skip, CmpOperator::IsString, [], 6);
-//@ k8u_empty_str props=C01,C03 tier=quick expect=pass fns=eval_guard_access_clause,unary_operation,element_empty_operation :: clause level, `empty` on ("" , "x"): per-value truth by length, fold by all/some, negations
+//@ k8u_empty_str props=C01,C03 tier=thorough expect=pass fns=eval_guard_access_clause,unary_operation,element_empty_operation :: clause level, `empty` on ("" , "x"): per-value truth by length, fold by all/some, negations
 k8u!(k8u_empty_str, CmpOperator::Empty, [V_STR_EMPTY, V_STR_X], 7);
 //@ k8u_empty_int props=C01,C03,C08 tier=quick expect=pass fns=eval_guard_access_clause,unary_operation,element_empty_operation :: clause level, `empty` on a number: evaluation error for every polarity/negation (never inverted into PASS), block record closed with FAIL
 k8u!(k8u_empty_int, CmpOperator::Empty, [V_INT], 6);
-//@ k8u_isstring_2 props=C01,C03 tier=quick expect=pass fns=eval_guard_access_clause,unary_operation,is_string_operation :: clause level, is_string on ("x", Int)
+//@ k8u_isstring_2 props=C01,C03 tier=thorough expect=pass fns=eval_guard_access_clause,unary_operation,is_string_operation :: clause level, is_string on ("x", Int)
 k8u!(k8u_isstring_2, CmpOperator::IsString, [V_STR_X, V_INT], 7);
 //@ k8u_islist_2 props=C01,C03 tier=thorough expect=pass fns=eval_guard_access_clause,unary_operation,is_list_operation :: clause level, is_list on (empty list, "x")
 k8u!(k8u_islist_2, CmpOperator::IsList, [V_LIST_EMPTY, V_STR_X], 7);
@@ -170,88 +192,6 @@ k8u!(k8u_isbool_2, CmpOperator::IsBool, [V_BOOL, V_NULL], 7);
 k8u!(k8u_isfloat_2, CmpOperator::IsFloat, [V_FLOAT, V_INT], 7);
 //@ k8u_ismap_2 props=C01,C03 tier=thorough expect=pass fns=eval_guard_access_clause,unary_operation,is_struct_operation :: clause level, is_struct on (empty map, empty list)
 k8u!(k8u_ismap_2, CmpOperator::IsMap, [V_MAP_EMPTY, V_LIST_EMPTY], 7);
-
-// ---- binary clause, scalar LHS values vs a scalar literal --------------------------------------
-fn cmp_doc(op: CmpOperator, l: i64, r: i64) -> bool {
-    match op {
-        CmpOperator::Eq => l == r,
-        CmpOperator::Lt => l < r,
-        CmpOperator::Le => l <= r,
-        CmpOperator::Gt => l > r,
-        CmpOperator::Ge => l >= r,
-        _ => false,
-    }
-}
-
-macro_rules! k8b_int {
-    ($name:ident, $op:expr, $n:literal, $with_unres:literal, $unwind:literal) => {
-        proof!($name, $unwind, {
-            let not_op: bool = kani::any();
-            let negation: bool = kani::any();
-            let all: bool = kani::any();
-            let rv: i64 = kani::any();
-            let rhs = LetValue::Value(PathAwareValue::Int((p(), rv)));
-            let clause = gac(key_query('a'), all, ($op, not_op), Some(rhs), negation);
-            let mut ctx = Ctx::new();
-            let mut lhs = Vec::with_capacity($n + 1);
-            let mut vals = [0i64; $n];
-            let mut i = 0;
-            while i < $n {
-                vals[i] = kani::any();
-                lhs.push(QueryResult::Resolved(Rc::new(PathAwareValue::Int((p(), vals[i])))));
-                i += 1;
-            }
-            if $with_unres {
-                lhs.push(mk_qr(V_UNRESOLVED, false));
-            }
-            ctx.lhs = Some(lhs);
-            let r = eval_guard_access_clause(&clause, &mut ctx);
-            let got = status_of(&r);
-            let mut passes = 0u32;
-            let mut fails = 0u32;
-            let mut i = 0;
-            while i < $n {
-                let truth = cmp_doc($op, vals[i], rv) != not_op; // `!=`, `not in`-style operator negation
-                let truth = truth != negation; // prefix not (C03: never ignored)
-                if truth { passes += 1 } else { fails += 1 }
-                i += 1;
-            }
-            if $with_unres {
-                // unresolved paths count as FAIL for comparisons
-                fails += 1;
-            }
-            let exp = if all {
-                if fails > 0 { FAIL } else { PASS }
-            } else {
-                if passes > 0 { PASS } else { FAIL }
-            };
-            assert!(ctx.balanced());
-            assert!(ctx.n_block == 1);
-            if !($with_unres && negation) {
-                // (how prefix negation treats an unresolved value is not pinned down by the docs)
-                assert!(got == exp);
-                assert!(ctx.block_status == exp);
-            }
-            kani::cover!(got == PASS);
-            kani::cover!(got == FAIL);
-            forget(r);
-            forget(clause);
-        });
-    };
-}
-
-//@ k8b_eq_int_1 props=C01,C03,C02 tier=probe expect=pass fns=eval_guard_access_clause,binary_operation,Comparator::compare,match_value,compare_eq :: clause level, `[not] a ==/!= <int literal>` on 1 resolved Int (both any i64): PASS iff (a == v) xor `!=` xor prefix-not; some/all symbolic; one block record with that status; balanced
-k8b_int!(k8b_eq_int_1, CmpOperator::Eq, 1, false, 7);
-//@ k8b_lt_int_1 props=C01,C03,C13 tier=probe expect=pass fns=eval_guard_access_clause,binary_operation,Comparator::compare,match_value,compare_lt :: clause level, `[not] a < v` / `a !< v` on 1 resolved Int: `not a < v` holds exactly when `a >= v`
-k8b_int!(k8b_lt_int_1, CmpOperator::Lt, 1, false, 7);
-//@ k8b_ge_int_2 props=C01,C03 tier=probe expect=pass fns=eval_guard_access_clause,binary_operation,Comparator::compare,match_value,compare_ge :: clause level, `a >= v` on 2 resolved Ints: all/some fold
-k8b_int!(k8b_ge_int_2, CmpOperator::Ge, 2, false, 8);
-//@ k8b_eq_int_unres props=C01,C02 tier=probe expect=pass fns=eval_guard_access_clause,binary_operation,Comparator::compare :: clause level, `a == v` on (resolved Int, unresolved): the unresolved entry counts as FAIL
-k8b_int!(k8b_eq_int_unres, CmpOperator::Eq, 1, true, 8);
-//@ k8b_le_int_1 props=C03 tier=probe expect=pass fns=eval_guard_access_clause,binary_operation,compare_le :: clause level `[not] a <= v`
-k8b_int!(k8b_le_int_1, CmpOperator::Le, 1, false, 7);
-//@ k8b_gt_int_1 props=C03 tier=probe expect=pass fns=eval_guard_access_clause,binary_operation,compare_gt :: clause level `[not] a > v`
-k8b_int!(k8b_gt_int_1, CmpOperator::Gt, 1, false, 7);
 
 //@ k8_twin props=C01,C02,C03 tier=quick expect=fail fns=eval_guard_access_clause :: vacuity twin of the clause-level family
 proof!(k8_twin, 6, {
